@@ -24,7 +24,7 @@ C03-e SubStorage/subWritable add their offset exactly once in ReadAt/WriteAt and
 Not covered (arithmetic, not structure): the FAT32 cluster-count rounding overrun and ext4 allocator bounds. Decides these clauses, not the bytes written at run time.`)
 	register("C13", runC13, `Structural clauses of partition streaming, decided statically for both part.Partition implementations (gpt, mbr).
 C13-a 64-bit conversion: no multiplication/addition/shift on the way from Start/Size/End to an I/O offset, a size comparison or GetStart/GetSize is performed in an integer type narrower than 64 bits, and no narrowing conversion occurs.
-C13-b bound before write and incomplete => error: as C03-c, plus the total != size test dominating the success return of WriteContents.
+C13-b bound before write and incomplete => error: as C03-c (the byte total is compared as it is: no division, shift or mask on that side), plus the total != size test dominating the success return of WriteContents, and the running total advances only by bytes that went through the device write (the count a WriteAt returned, or an addition dominated by that chunk's WriteAt).
 C13-c read clamp: the high bound of the slice handed to the output writer in ReadContents depends on the remaining partition bytes.
 C13-d GetStart/GetSize use the same fields as the streaming functions.
 C13-e verifyBlockCopy compares digests and returns an error on inequality; CopyPartitionRaw propagates read, count and verify errors.
